@@ -13,7 +13,7 @@ strict comparison, both batch loops are guarded by the pending check.
 C06: the Flush branch of `_process_transit_event` flushes the active sinks unconditionally (interval 0) *before* it
 captures the flag; the flag is stored only after `pop_front`; every sink flush is wrapped in its own try/catch;
 `flush_log` retries a refused request in a loop, then waits on the flag; only `Event::Log` statements bump the
-failure counter. `flushOnlyValidLoggers` records that the flush covers the sinks of *valid* loggers only (F12).
+failure counter. `flushOnlyValidLoggers = false` records that the flush also covers the sinks of loggers marked for removal and not erased yet (F12, repaired).
 -/
 namespace Obligations
 open Backend
@@ -39,7 +39,7 @@ theorem backendB_flush_structure :
     Extracted.flushBeforeFlag = true ∧ Extracted.flushIgnoresInterval = true ∧ Extracted.popBeforeFlag = true ∧
     Extracted.perSinkFlushCatch = true ∧ Extracted.perEventCatch = true ∧ Extracted.flushRetries = true ∧
     Extracted.flushWaitsOnFlag = true ∧ Extracted.countsOnlyLogEvents = true ∧
-    Extracted.flushOnlyValidLoggers = true := by decide
+    Extracted.flushOnlyValidLoggers = false := by decide
 
 /-- C06 (other threads) for the code as extracted -/
 theorem C06_extracted (s0 : BSt) (h0 : StartF s0) (hg : s0.cfg.grace ≠ 0)
